@@ -89,6 +89,7 @@ class Linker:
         self.arch = arch
         self.extra_symbols = None
         self.reporter = reporter
+        self.section_copies = []
 
     def link(
         self,
@@ -155,6 +156,10 @@ class Linker:
 
             self.do_relaxations()
             self.do_relocations()
+
+            # Section data copies must contain the relocated data:
+            for section, src_section in self.section_copies:
+                section.data = bytearray(src_section.data)
 
         if self.reporter:
             self.report_link_result()
@@ -336,6 +341,8 @@ class Linker:
                     )
 
                     section.add_data(src_section.data)
+                    # The copy must be refreshed once relocations are done:
+                    self.section_copies.append((section, src_section))
 
                     current_address += section.size
                     image.add_section(section)
